@@ -502,7 +502,15 @@ impl<I: Hash + Eq, A: Hash + Eq> Game<I, A> {
                     1 => Ok(outcomes.pop().unwrap()),
                     _ => {
                         // renormalize to make sure consistency
-                        let total: f64 = probs.iter().sum();
+                        let mut total: f64 = probs.iter().sum();
+                        if !total.is_finite() {
+                            // the total of large (finite) weights overflowed; scale them down first
+                            let largest = probs.iter().fold(0.0, |max, &prob| f64::max(max, prob));
+                            for prob in &mut probs {
+                                *prob /= largest;
+                            }
+                            total = probs.iter().sum();
+                        }
                         for prob in &mut probs {
                             *prob /= total;
                         }
